@@ -78,6 +78,12 @@ def corpus():
         f = os.path.join(t, "behaviours", b + ".mfront")
         if os.path.exists(f):
             c.append((f, ""))
+    # runs given two inputs of which the second one is rejected by mfront: the run ends with an error status, but what it generated for the
+    # first input is on disk and must be registered like the description of that input treated alone ("+fail" marks those runs)
+    for p in props[:2]:
+        f = os.path.join(t, "properties", p + ".mfront")
+        if os.path.exists(f):
+            c.append((f, "c", "+fail"))
     # a behaviour using @MaterialLaw: its library depends on a second library (MFrontMaterialLaw) registered by the same run
     f = os.path.join(t, "behaviours", "T91ViscoplasticBehaviour.mfront")
     if os.path.exists(f):
@@ -99,7 +105,9 @@ def mfront(wd, inp, extra_env=None):
     env["VPRE_SEM_PRIVATE"] = "1"   # killed runs must not leave the user's real /dev/shm semaphore locked
     if extra_env:
         env.update(extra_env)
-    p = subprocess.run([MF] + (["--interface=" + inp[1]] if inp[1] else []) + list(inp[2:]) + [inp[0]], cwd=wd, env=env, stdout=subprocess.PIPE, stderr=subprocess.STDOUT, text=True)
+    extra = [a for a in inp[2:] if a != "+fail"]
+    files = [inp[0]] + ([os.path.join(VERIF, "behaviours", "InvalidLaw.mfront")] if "+fail" in inp[2:] else [])
+    p = subprocess.run([MF] + (["--interface=" + inp[1]] if inp[1] else []) + extra + files, cwd=wd, env=env, stdout=subprocess.PIPE, stderr=subprocess.STDOUT, text=True)
     return p.returncode, p.stdout
 
 
@@ -279,6 +287,20 @@ class Ctx:
             d = self.newdir("alone")
             rc, out = mfront(d, self.cps[i])
             reg, st = read_registry(d)
+            if "+fail" in self.cps[i][2:]:   # the model of a partially failing run is the description of its valid input treated alone
+                base = (self.cps[i][0], self.cps[i][1]) + tuple(a for a in self.cps[i][2:] if a != "+fail")
+                if rc == 0:
+                    shutil.rmtree(d, ignore_errors=True)
+                    raise RuntimeError("run of %s with an invalid second input exits with status 0" % (self.cps[i],))
+                d2 = self.newdir("alone")
+                rc2, out2 = mfront(d2, base)
+                reg2, st2 = read_registry(d2)
+                shutil.rmtree(d2, ignore_errors=True)
+                if rc2 == 0 and reg2 is not None and (reg is None or includes(reg, reg2)):
+                    shutil.rmtree(d, ignore_errors=True)
+                    raise RuntimeError("run of %s followed by an invalid input (exit status %d): the files generated for the valid input are on disk but the registry (%s) does not record: %s" % (
+                        self.cps[i][:2], rc, st, includes(reg, reg2) if reg else "anything"))
+                rc, reg = rc2, reg2
             if rc != 0 or reg is None:
                 shutil.rmtree(d, ignore_errors=True)
                 raise RuntimeError("run of %s alone in a fresh directory: exit status %d, registry %s; output: %s" % (self.cps[i], rc, st, out[-300:]))
@@ -295,7 +317,7 @@ def check_fault_free(ctx, h, viol, stats):
         before = open(os.path.join(d, "src", "targets.lst"), "rb").read() if os.path.exists(os.path.join(d, "src", "targets.lst")) else None
         rc, out = mfront(d, ctx.cps[i])
         stats["mfront_runs"] += 1
-        if rc != 0:
+        if rc != 0 and "+fail" not in ctx.cps[i][2:]:
             viol.append(("fault-free-run-failed", "run %d (%s) failed in a history: %s" % (k, ctx.cps[i], out[-200:]), {"history": h, "step": k}))
             break
         model = union(model, ctx.alone(i))
